@@ -644,6 +644,7 @@ def gen_project_case(rng):
              WATCH + "/pp/p1/sub/g.c", WATCH + "/pp/p2/h", WATCH + "/pp/loose.txt", WATCH + "/inc/a.txt"]
     exists = set()
     blockers = set()
+    dirs = set()
     n = 0
     if rng.random() < 0.25:
         # the project store is unusable for a while (a stray regular file where its directory belongs): the pass that
@@ -652,6 +653,10 @@ def gen_project_case(rng):
         s.put(R + "/k/projects", "stray")
         s.put(f, "c0")
         exists.add(f)
+        a = f.rsplit("/", 1)[0]
+        while len(a) > len(WATCH):
+            dirs.add(a)
+            a = a.rsplit("/", 1)[0]
         s.write(3, f)
         s.tick(3)
         s.dump()
@@ -674,6 +679,10 @@ def gen_project_case(rng):
                     blockers.discard(b)
             s.put(f, "c%d" % n)
             exists.add(f)
+            a = f.rsplit("/", 1)[0]
+            while len(a) > len(WATCH):
+                dirs.add(a)
+                a = a.rsplit("/", 1)[0]
             s.write(3, f)
         elif r < 0.6 and f in exists:
             s.rm(f)
@@ -682,9 +691,10 @@ def gen_project_case(rng):
             if rng.random() < 0.5:
                 d = f.rsplit("/", 1)[0]
                 while d not in (WATCH + "/proj", WATCH + "/pp/p1", WATCH + "/pp/p2", WATCH + "/pp", WATCH + "/inc", WATCH):
-                    if any(e.startswith(d + "/") for e in exists):
-                        break
+                    if any(e.startswith(d + "/") for e in exists) or any(x.startswith(d + "/") for x in dirs | blockers):
+                        break      # not empty: files or (empty) sub-directories remain
                     s.add("rmdir %s" % hexs(d))
+                    dirs.discard(d)
                     if rng.random() < 0.4:
                         # ... and a regular file takes the directory's name (access() below it: ENOTDIR, not ENOENT)
                         s.put(d, "now a file")
